@@ -90,5 +90,6 @@ def run(tier, replay=None):
     ikeprop.run(v, scen, limit=3000 if tier == 'quick' else None)
     rnd = random.Random(common.SEED)
     replay_storm(v, [rnd.randrange(1 << 30) for _ in range(12 if tier == 'quick' else 150)], 40 if tier == 'quick' else 70)
+    ikeprop.run_traces(v, 24 if tier == 'quick' else 400, 60 if tier == 'quick' else 120)     # binding B: Message IDs of recorded random schedules
     v.assumptions += ['authentic traffic only (forgeries are C03); two endpoints; budgets per scenario']
     return v.finish()
